@@ -20,8 +20,13 @@ inductive Item
   | comment (c : Char) (rest : Str)
   /-- comment line whose `!` stands in columns 2-5 (whole line, terminator included) -/
   | bang25 (l : Str)
-  /-- blank line of `n ≤ 5` blanks -/
+  /-- blank line of `n` blanks (`n ≤ 5` for the code as it is; any `n` once a line of
+      blanks only is a comment line whatever its length, `Variant.blankShort`) -/
   | blank (n : Nat)
+  /-- comment line whose `!` is the first non-blank character and stands in column 7 or
+      later: `6 + k` blanks, `!`, rest of the line (terminator included).  A comment line
+      only for the repaired code (`Variant.col7Comment`). -/
+  | bang7 (k : Nat) (rest : Str)
   /-- preprocessor line `#...` (rest of the line, terminator included) -/
   | cpp (rest : Str)
   deriving Repr, DecidableEq
@@ -35,17 +40,27 @@ def fixedLine : Item → Str
   | .comment c rest => c :: rest
   | .bang25 l => l
   | .blank n => List.replicate n ' ' ++ ['\n']
+  | .bang7 k rest => List.replicate (6 + k) ' ' ++ '!' :: rest
   | .cpp rest => '#' :: rest
 
+/-- The statement field of an initial line is one for the variant: for the code as it is
+    always; once blank-only lines are comment lines the line must not be blank, and once a
+    `!` as first non-blank character in column 7+ starts a comment line the statement field
+    must not start with one behind blank columns 1-6. -/
+def fieldOk (v : Variant) (lab5 : Str) (c6 : Char) (body : Str) : Bool :=
+  !(v.blankShort && isBlank (lab5 ++ c6 :: body)) &&
+  !(v.col7Comment && isBlank (lab5 ++ [c6]) && (lstrip body).head? == some '!')
+
 /-- well-formedness of one line (decidable) -/
-def Item.ok : Item → Bool
-  | .init lab5 c6 _ =>
+def Item.ok (v : Variant) : Item → Bool
+  | .init lab5 c6 body =>
     lab5.length == 5 && !commentHead lab5.head? && lab5.head? != some '#'
-      && !(lab5.drop 1).contains '!' && (isSpace c6 || c6 == '0')
+      && !(lab5.drop 1).contains '!' && (isSpace c6 || c6 == '0') && fieldOk v lab5 c6 body
   | .cont c6 _ => !(isSpace c6 || c6 == '0')
   | .comment c rest => commentHead (some c) && lower (rest.take 4) != ['$', 'o', 'm', 'p']
   | .bang25 l => !commentHead l.head? && ((l.drop 1).take 4).contains '!'
-  | .blank n => n ≤ 5
+  | .blank n => decide (n ≤ 5) || v.blankShort
+  | .bang7 _ _ => v.col7Comment
   | .cpp _ => true
 
 /-- lines that carry (part of) a statement -/
@@ -73,22 +88,23 @@ def labelOut (lab5 : Str) : Str :=
 /-- free-form equivalent of a statement-carrying line whose label text is
     `lab` and body `body`; `amp` = the statement goes on on a later line.
     With the limit on, what stands beyond column 72 (`body.drop 66`) goes
-    behind a `!` that is placed in column 73 or later. -/
-def freeCode (lim : Bool) (lab body : Str) (amp : Bool) : Str :=
+    behind a `!` (`excessMark`: `!` or, repaired, `! `) that is placed in column 73 or later. -/
+def freeCode (v : Variant) (lim : Bool) (lab body : Str) (amp : Bool) : Str :=
   if lim && decide (body.length > 66) then
     let vis := rstrip (lab ++ body.take 66)
-    ljust 72 (if amp then vis ++ [' ', '&'] else vis) ++ '!' :: (body.drop 66 ++ ['\n'])
+    ljust 72 (if amp then vis ++ [' ', '&'] else vis) ++ (excessMark v ++ (body.drop 66 ++ ['\n']))
   else if amp then rstrip (lab ++ body) ++ [' ', '&', '\n']
   else lab ++ body ++ ['\n']
 
 /-- the equivalent free-form line -/
-def freeLine (lim : Bool) (it : Item) (amp : Bool) : Str :=
+def freeLine (v : Variant) (lim : Bool) (it : Item) (amp : Bool) : Str :=
   match it with
-  | .init lab5 _ body => freeCode lim (labelOut lab5) body amp
-  | .cont _ body => freeCode lim [] body amp
+  | .init lab5 _ body => freeCode v lim (labelOut lab5) body amp
+  | .cont _ body => freeCode v lim [] body amp
   | .comment _ rest => '!' :: rest
   | .bang25 l => l
-  | .blank _ => ['\n']
+  | .blank n => List.replicate (n - 6) ' ' ++ ['\n']
+  | .bang7 k rest => List.replicate (6 + k) ' ' ++ '!' :: rest
   | .cpp rest => '#' :: rest
 
 def renderFixed (p : List Item) : List Str := p.map fixedLine
@@ -96,12 +112,12 @@ def renderFixed (p : List Item) : List Str := p.map fixedLine
 /-- the equivalent free-form file: same lines in the same order; a
     statement-carrying line gets ` &` exactly when the next statement-carrying
     line is a continuation line -/
-def renderFree (lim : Bool) : List Item → List Str
+def renderFree (v : Variant) (lim : Bool) : List Item → List Str
   | [] => []
-  | it :: rest => freeLine lim it (it.isRegular && nextIsCont rest) :: renderFree lim rest
+  | it :: rest => freeLine v lim it (it.isRegular && nextIsCont rest) :: renderFree v lim rest
 
 /-- the whole file is well formed: every line is, and the first
     statement-carrying line is not a continuation line -/
-def WF (p : List Item) : Prop := (∀ it ∈ p, it.ok = true) ∧ nextIsCont p = false
+def WF (v : Variant) (p : List Item) : Prop := (∀ it ∈ p, it.ok v = true) ∧ nextIsCont p = false
 
 end Ford.Fixed
